@@ -16,7 +16,7 @@ func init() { Registry["C18"] = C18 }
 
 var c18Digits = []string{"12345", "123456", "1234567"}
 var c18K = []string{"", "-chain", "-chain0", "-chain00", "-chain1", "-chain01", "-chain2", "-chain3", "-chain9", "-chain10", "-chain255", "-chain256", "-chain300", "-chain65536", "-chain18446744073709551616", "-chain-1", "-chain1x", "-CHAIN1", "-chain 1"}
-var c18Ext = []string{"", ".ra", ".ra.ra", ".raw", ".txt", ".RA"}
+var c18Ext = []string{"", ".ra", ".ra.ra", ".raw", ".txt", ".RA", "xra", "_ra", "-ra", "ra", ".r", "."}
 var c18Deco = []string{"", " ", "./", "sub/"}
 
 var c18Grammar = regexp.MustCompile(`^(\d{6})(?:-chain(\d+))?(\.ra)?$`)
@@ -63,7 +63,7 @@ func c18Args() []string {
 		for _, d := range c18Digits {
 			for _, k := range c18K {
 				for _, e := range c18Ext {
-					if deco != "" && (d != "123456" || len(k) > 7 || e == ".raw" || e == ".RA") {
+					if deco != "" && (d != "123456" || len(k) > 7 || e == ".raw" || e == ".RA" || len(e) > 0 && e[0] != '.' || len(e) < 3 && e != "") {
 						continue
 					}
 					out = append(out, deco+d+k+e)
